@@ -36,3 +36,37 @@ def rename_without_edit_keeps_ai_lines():
         return s.kinds()
     finally:
         s.destroy()
+
+
+def _two_commit_file(name):
+    from ..props import c09
+    s = _S(name, files=1)
+    f0 = [s.line("human") for _ in range(4)]
+    s.human_write("f.txt", f0); s.commit_all("init")
+    s.ai_write("S1", "f.txt", f0[:2] + [s.line("S1") for _ in range(3)] + f0[2:] + [s.line("S1")]); s.commit_all("ai")
+    return s, c09
+
+
+def relative_and_open_ended_line_ranges():
+    """D59: git blame's -L forms other than `a,b`: `3,+2` (two lines from 3) is read as 3..2 and refused, `5,-2`, `3,` and `,4` are
+    refused, `3` (from line 3 to the end) is read as the single line 3."""
+    s, c09 = _two_commit_file("d59")
+    try:
+        kinds = set()
+        for opts in (["-L", "3,+2"], ["-L", "5,-2"], ["-L", "3,"], ["-L", ",4"], ["-L", "3"]):
+            s.viol = []
+            c09.compare_one(s, "f.txt", opts, "w", {})
+            kinds |= {"%s@-L %s" % (v["kind"], opts[1]) for v in s.viol}
+        return sorted(kinds), []
+    finally:
+        s.destroy()
+
+
+def ignore_whitespace_option():
+    """D60: `git-ai blame -w f.txt` is refused with `Unknown option: -w` (git blame -w blames the same file ignoring whitespace)."""
+    s, c09 = _two_commit_file("d60")
+    try:
+        c09.compare_one(s, "f.txt", ["-w"], "w", {})
+        return sorted({v["kind"] for v in s.viol}), [dict(v) for v in s.viol[:3]]
+    finally:
+        s.destroy()
